@@ -284,6 +284,14 @@ impl<'a> EM<'a> {
         };
         self.rec.ev("to_greg", format!("\"to\":{},\"res\":{}", ts_idx(ts), res), true);
     }
+    /// C09: the fields of the register, then an epoch built from those fields in the same scale
+    pub fn greg_round_trip(&mut self, ts: TimeScale, form: u8) {
+        let a = self.e;
+        self.to_greg(ts);
+        if let Ok((y, mo, d, hh, mi, ss, ns)) = catch(|| if ts == TimeScale::UTC { a.to_gregorian_utc() } else { a.to_gregorian_tai() }) {
+            self.from_greg(ts, y, mo, d, hh, mi, ss, ns, form);
+        }
+    }
     pub fn weekday(&mut self, form: u8) {
         let a = self.e;
         let (to, r) = match form {
@@ -1129,7 +1137,11 @@ pub fn c09_fields(m: &mut EM, rng: &mut Rng, thorough: bool, with_weekday: bool,
             };
             m.eload_dur(ts, ns_dur(day * NS_DAY as i128 + tod));
             if with_fields {
-                m.to_greg(ts);
+                if k % 3 == 0 || doy < 2 || doy > ndays - 3 {
+                    m.greg_round_trip(ts, (k % 3) as u8);
+                } else {
+                    m.to_greg(ts);
+                }
             }
             if with_weekday {
                 m.weekday(if ts == TimeScale::TAI { (k % 2 * 2) as u8 } else { (1 + k % 2 * 2) as u8 });
